@@ -92,7 +92,7 @@ SPECS['C11'] = dict(
                 'the start-up burst limiter for exactly its first ten rounds.',
     functions=['billiard.common.restart_state.step', 'restart_state.__init__', 'billiard.pool.Pool._repopulate_pool', 'Pool._maintain_pool',
                'ResultHandler on_ack', 'Supervisor.body', 'TimeoutHandler._timed_out (clock kernel lemma)'],
-    bounds={'quick': '(a) unbounded history (inductive), reals; (b) 4 steps, 1<=maxR<=3; (c) pool of 2, budget 1..2, 3 events (exit with status in {-9,0,1,155} / '
+    bounds={'quick': '(a) unbounded history (inductive), reals; (b) 4 steps, 1<=maxR<=3; (c) pool of 2, budget 1..2, 3 events (exit with status in {-9,0,155} / '
                      'clock advance / job acceptance)', 'thorough': '(b) 6 steps, maxR<=4; (c) 5 events'},
     outside=['floating-point rounding of instants', 'monotonic()==0 (T falsy): Linux CLOCK_MONOTONIC is time since boot',
              'max_restarts=None (no budget is configured: Pool.__init__ passes the raw argument to restart_state)'],
@@ -295,8 +295,8 @@ SPECS['C09'] = dict(
                 'symbolic orders of takes, results, result handling and ticks for every job kind; the worker side of the quota and of the '
                 'memory limit runs the real Worker.workloop.',
     functions=POOL_FUNCS + ['Pool.grow', 'Pool.shrink', 'Pool._iterinactive', 'Pool._worker_active'] + WORKER_FUNCS,
-    bounds={'quick': 'pool of 3 (size 1..4 after grow/shrink), 5 events; recycling: pool of 2, quota 1..2, 3 parts, 8 events',
-            'thorough': '6 / 9 events'},
+    bounds={'quick': 'pool of 3 (size 1..4 after grow/shrink), 3 events from {exit of worker k with status in {-9,0,155}, grow, shrink, tick}; recycling: pool of 2, quota 1..2, 3 parts, 5 events then run to completion',
+            'thorough': '4 / 6 events'},
     outside=['real processes', 'pool sizes above 4'],
     assumptions=POOL_ASSUME + WORKER_ASSUME + ['a worker told to terminate while idle exits at once (C08 worker side)'],
     trusted_base=TRUST,
